@@ -44,6 +44,11 @@ def Storable (outputs : Items) : List String → Prop
       | some (.dict true _) => False           -- an immutable mapping is a value: nothing can be stored below it
       | some (.atom _ _) => False
 
+/-- a plain `dict` — the only kind of value the storage loop of `out` enters (`setdefault` / item assignment) -/
+def V.isDict : V → Bool
+  | .dict false _ => true
+  | _ => false
+
 /-- re-insert a list of listener notifications `(path, value, dynamic)`, oldest first -/
 def replay (outputs : Items) : List (List String × V × Bool) → Items
   | [] => outputs
